@@ -198,9 +198,9 @@ def check_table(table, res: Result, subsets=True, metamorphic=None):
                 if b[0] != "ok" or g[0] != "ok":
                     continue  # exceptions are judged above
                 x, y = b[1], g[1]
-                # renaming and reordering must not change a single bit ("unchanged"); a common factor
-                # may move the last bit where counts exceed 2^53
-                same = (math.isnan(x) and math.isnan(y)) or (x == y if vn != "scaled" else abs(x - y) <= 1e-9 * max(1.0, abs(x)))
+                # renaming, reordering and a common factor must not change a single bit ("unchanged"):
+                # every metric is a correctly rounded quotient of integers, or an exactly rounded sum of such
+                same = (math.isnan(x) and math.isnan(y)) or x == y
                 if not same:
                     vs.append(make_violation(f"{n}:not-invariant:{vn}", {"table": tj, "variant": table_json(t2)}, x, y))
     return vs
@@ -256,7 +256,7 @@ def table_strategy():
         ren_targets = draw(st.permutations([f"r{i}" for i in range(len(ps))]))
         ren = dict(zip(ps, ren_targets))
         order = draw(st.permutations(list(t.keys())))
-        factor = draw(st.sampled_from([2, 3, 1000]))
+        factor = draw(st.sampled_from([2, 3, 1000, 10**6]))
         return (t, ren, order, factor)
 
     return tables()
@@ -352,7 +352,8 @@ def _printed_shard(seed, n):
 
     res = Result()
     small = st.dictionaries(
-        st.frozensets(st.sampled_from(["p1", "p2", "p3", "p4"]), max_size=4),
+        # (names that look like numbers must keep their spelling in the printed matrix)
+        st.frozensets(st.sampled_from(["p1", "p2", "2024.1", "2024.10", "1e3"]), max_size=4),
         st.one_of(st.integers(1, 999), st.integers(0, 3)), min_size=0, max_size=10,
     )
     core.hyp_search(small, check_printed, n, seed, res)
